@@ -64,7 +64,12 @@ def work(case):
 
 
 def oracle(res):
-    return engine_oracles.oracle_accounting(res["case"]["doc"], res["case"]["edits"], res["res"])
+    fails = engine_oracles.oracle_accounting(res["case"]["doc"], res["case"]["edits"], res["res"])
+    ix = res.get("indexed")
+    if ix:
+        # the same locatable edits submitted with their offsets (what the diff workflow produces): same contract
+        fails += ["batch addressed by offset: " + f for f in engine_oracles.oracle_accounting(res["case"]["doc"], ix["edits"], ix["res"])]
+    return fails
 
 
 def driver_line(res):
